@@ -7,18 +7,18 @@ inline_ok(f"{M}:_IndexingMixin._isintlike")
 
 
 def py_slice_bound(x, n, default):
-    """what slice(a, b).indices(n) gives for one bound (step 1): the array rule"""
+    """what slice(a, b).indices(n) gives for one bound (step 1): the array rule; a positive bound
+    beyond n is left as it is (the dataset read clips it), which selects the same rows"""
     if x is None:
         return default
-    return If(x < 0, Max(x + n, 0), Min(x, n))
+    return If(x < 0, Max(x + n, 0), x)
 
 
 @contract
 class ProcessSlice(Contract):
-    """C03/C14: negative and open-ended bounds resolve as for arrays; a scalar
-    selects the one-element range.  The property quantifies over windows
-    inside [0, n]; bounds outside [-n, n] are not clamped by the code (arrays
-    clamp) -- recorded as an observation in DESIGN.md, hence the requires."""
+    """C03/C14: negative and open-ended bounds resolve as for arrays (for ALL integer bounds
+    since fix 27816e5: negative bounds below -n clip to 0); a scalar selects the one-element
+    range.  Positive bounds beyond n are passed through (h5py/array reads clip them)."""
     target = f"{M}:_IndexingMixin._process_slice"
     props = ["C03", "C14"]
 
@@ -46,11 +46,9 @@ class ProcessSlice(Contract):
 
     def requires(self, self_=None, s=None, nmax=None, **kw):
         r = [nmax >= 0]
-        if isinstance(s, SliceV):
-            for x in (s.start, s.stop):
-                if x is not None:
-                    r.append(And(x >= -nmax, x <= nmax))
-        elif s is not None:
+        if not isinstance(s, SliceV) and s is not None:
+            # a scalar below -nmax is not an index of the table (arrays raise IndexError; the code
+            # returns a negative range): outside the property's quantifier
             r.append(s >= -nmax)
         return r
 
